@@ -266,7 +266,7 @@ DCEP_BODIES = [
     b"\x02extra",
     b"\x07garbage",  # unknown DCEP message type
     b"",
-]
+] + [struct.pack("!BBHLHH", 3, t, 0, 0, 1, 0) + b"x" for t in (0x03, 0x04, 0x40, 0x7F, 0x83, 0xFF)]  # channel types nobody defined
 EFFECT_FREE_TYPES = [4, 5, 9, 2, 10, 11, 14, 8, 1, 63, 64, 127, 128, 129, 191, 193, 255]  # once established
 DANGEROUS_TYPES = [0, 3, 6, 7, 130, 192]
 
@@ -276,7 +276,7 @@ def injection(draw, nchan):
     kind = draw(st.sampled_from([
         "raw", "mutant", "chunk", "chunk", "chunk-dangerous", "dup-data", "stale-sack", "samecum-sack", "old-fwd",
         "data-new-stream", "data-new-stream", "dcep-existing", "bad-utf8", "reconfig-typed", "reconfig-raw", "bundle-init",
-        "sack-beyond", "fwd-beyond", "abort", "shutdown"]))
+        "sack-beyond", "fwd-beyond", "abort", "shutdown", "data-far"]))
     op = {"op": "inject", "to": draw(st.integers(0, 1)), "kind": kind, "dt": draw(st.sampled_from([0, 0, 1, 20]))}
     if kind == "raw":
         op["data"] = draw(st.binary(max_size=draw(st.sampled_from([0, 1, 11, 12, 16, 40, 1200])))).hex()
@@ -303,6 +303,11 @@ def injection(draw, nchan):
                   dups=draw(st.lists(U32, max_size=5)))
     elif kind in ("old-fwd", "fwd-beyond"):
         op.update(k=draw(st.one_of(st.integers(0, 5), st.sampled_from([1000, 2**20, 2**31 - 2, 2**31 - 1]))), streams=draw(st.lists(st.tuples(U16, U16).map(list), max_size=6)))
+    elif kind == "data-far":
+        # one to three DATA chunks with consecutive TSNs far ahead of the cumulative TSN, around the largest gap-block
+        # offset a SACK can express (and around half the number space)
+        op.update(k=draw(st.sampled_from([0xFFFD, 0xFFFE, 0xFFFF, 0x10000, 0x10001, 2**31 - 2, 2**31 - 1, 2**31])), n=draw(st.integers(1, 3)),
+                  stream=1000 + draw(st.integers(0, 9)), flags=draw(st.sampled_from([3, 3, 2, 1, 0, 7])))
     elif kind == "data-new-stream":
         op.update(stream=1000 + draw(st.integers(0, 9)), seq=draw(st.sampled_from([0, 0, 1, 65535])),
                   flags=draw(st.sampled_from([3, 7, 7, 2, 1, 0, 5, 6])),
@@ -417,6 +422,10 @@ def build_injection(sess: Session, op: dict):
         c.cumulative_tsn = (rx._last_received_tsn + (-k if kind == "old-fwd" else k + 1)) % M
         c.streams = [(x[0] & 0xFFFF, x[1] & 0xFFFF) for x in op.get("streams", []) if isinstance(x, (list, tuple)) and len(x) == 2]
         return _packet(tag, bytes(c)), kind == "old-fwd"
+    if kind == "data-far":
+        base = ((rx._last_received_tsn or 0) + op.get("k", 0xFFFF)) % M
+        body = b"".join(bytes(data_chunk((base + i) % M, op.get("stream", 1000), i, 51, op.get("flags", 3), b"far")) for i in range(max(1, min(3, op.get("n", 1)))))
+        return _packet(tag, body), False
     if kind == "data-new-stream":
         if op.get("stream", 1000) in rx._data_channels and op.get("ppid") != 50:
             return b"", True
